@@ -2,6 +2,7 @@ import RedisGoModel.Driver.Util
 import RedisGoModel.Driver.Glob
 import RedisGoModel.Driver.Parser
 import RedisGoModel.Driver.Exec
+import RedisGoModel.Driver.Wal
 /-! Correspondence driver: reads one observed operation per line on stdin, recomputes it with the model, prints
     `MISMATCH <lineno> <detail>` for every disagreement and a final `SUMMARY` line. -/
 open Driver
@@ -12,6 +13,7 @@ structure St where
   pos : Nat := 0   -- lines whose model outcome is "positive" (non-trivial by the engine's rule)
   unk : Nat := 0
   ex : ExecSt := {}
+  wal : WalSt := {}
 
 partial def loop (h : IO.FS.Stream) (st : St) : IO St := do
   let line ← h.getLine
@@ -22,7 +24,9 @@ partial def loop (h : IO.FS.Stream) (st : St) : IO St := do
   let n := st.n + 1
   let (ex', exv) := execLine st.ex fs
   let st := { st with ex := ex' }
-  match (exv.orElse fun _ => globLine fs).orElse (fun _ => parserLine fs) with
+  let (wal', walv) := if exv.isSome then (st.wal, none) else walLine st.wal fs
+  let st := { st with wal := wal' }
+  match ((exv.orElse fun _ => walv).orElse fun _ => globLine fs).orElse (fun _ => parserLine fs) with
   | some (.ok b) => loop h { st with n := n, pos := st.pos + (if b then 1 else 0) }
   | some (.error e) =>
     IO.println s!"MISMATCH {n} {e} :: {line}"
